@@ -37,9 +37,27 @@ func readValue(origstr string, str string, separator byte) (string, string, erro
 	}
 }
 
-func keyValParse(str string, separator byte) (map[string]string, error) {
-	ret := make(map[string]string)
+type keyVal struct {
+	key   string
+	value string
+}
+
+// keyValParseOrdered parses key-value pairs and returns them in the order
+// in which they appear, so that callers process them deterministically.
+// When a key is repeated, the last value is kept.
+func keyValParseOrdered(str string, separator byte) ([]keyVal, error) {
+	var ret []keyVal
 	origstr := str
+
+	set := func(k string, v string) {
+		for i := range ret {
+			if ret[i].key == k {
+				ret[i].value = v
+				return
+			}
+		}
+		ret = append(ret, keyVal{key: k, value: v})
+	}
 
 	for len(str) > 0 {
 		var k string
@@ -53,20 +71,32 @@ func keyValParse(str string, separator byte) (map[string]string, error) {
 				return nil, err
 			}
 
-			ret[k] = v
+			set(k, v)
 		} else {
-			ret[k] = ""
+			set(k, "")
 		}
 
-		// skip separator
 		if len(str) > 0 && str[0] == separator {
 			str = str[1:]
 		}
 
-		// skip spaces
 		for len(str) > 0 && str[0] == ' ' {
 			str = str[1:]
 		}
+	}
+
+	return ret, nil
+}
+
+func keyValParse(str string, separator byte) (map[string]string, error) {
+	kvs, err := keyValParseOrdered(str, separator)
+	if err != nil {
+		return nil, err
+	}
+
+	ret := make(map[string]string)
+	for _, kv := range kvs {
+		ret[kv.key] = kv.value
 	}
 
 	return ret, nil
